@@ -89,7 +89,7 @@ def judge_solver(it, s, claripy, refsolver, out, V):
     from vf.gen.build import build
     from vf.ref import bvsem
 
-    exact = it["cls"] in ("Solver", "SolverCacheless", "SolverComposite", "SolverStrings")
+    exact = it["cls"] in ("Solver", "SolverCacheless", "SolverComposite", "SolverStrings", "SolverReplacement", "SolverHybrid")
     uni = refsolver.Universe({k: tuple(v) for k, v in it["vars"].items()})
     ans = refsolver.Answer(uni, it["cons"])
     x = build(it["x"])
